@@ -54,6 +54,11 @@ func c05poison(c *core.Ctx) {
 		{"protocol level 5", mk(func(p *refcodec.Packet) { p.Level = 5 })},
 		{"protocol name MQIsdp level 4", mk(func(p *refcodec.Packet) { p.ProtoName = "MQIsdp" })},
 		{"keep-alive 0, clean session", mk(func(p *refcodec.Packet) { p.KeepAlive, p.CleanSess = 0, true })},
+		// a CONNECT is not read through the ring, so its will may be larger than any
+		// packet the broker can forward (16 KiB rings here)
+		{"a will message of 20000 bytes", mk(func(p *refcodec.Packet) { p.WillMessage = []byte(big(20000, 3)) })},
+		{"a retained will message of 20000 bytes", mk(func(p *refcodec.Packet) { p.WillMessage, p.WillRetain = []byte(big(20000, 5)), true })},
+		{"a will message of 16384 bytes", mk(func(p *refcodec.Packet) { p.WillMessage = []byte(big(16384, 4)) })},
 		{"topic-like bytes in the user name", mk(func(p *refcodec.Packet) { p.User = []byte("#/+\x00") })},
 	}
 	n := 0
@@ -132,6 +137,23 @@ func c05poison(c *core.Ctx) {
 						return
 					}
 					if t.badStream() {
+						return
+					}
+					// a client that arrives later and subscribes to everything (retained wills included)
+					l := t.connect("L", 0, 65535, false)
+					if l == nil {
+						return
+					}
+					l.rc.Send(&refcodec.Packet{Type: refcodec.SUBSCRIBE, ID: 8, Topics: [][]byte{[]byte("#")}, QoSs: []byte{1}})
+					t.w.Settle()
+					if got := l.rc.Take(); !hasType(got, refcodec.SUBACK) || l.rc.EOF {
+						vsched.Failf("a client that connected after the attack and subscribed to '#' got %s (closed=%v)", Describe(got), l.rc.EOF)
+						return
+					}
+					l.rc.Send(&refcodec.Packet{Type: refcodec.PINGREQ})
+					t.w.Settle()
+					if got := l.rc.Take(); !hasType(got, refcodec.PINGRESP) || l.rc.EOF {
+						vsched.Failf("the late subscriber's PINGREQ was answered by %s (closed=%v)", Describe(got), l.rc.EOF)
 						return
 					}
 					if ps := publishesOn(b.rc.Take(), "v/t"); len(ps) != 1 || string(ps[0].Payload) != "for the victim" || b.rc.EOF {
